@@ -47,6 +47,9 @@ type Step struct {
 	Cached bool `json:"cached,omitempty"`
 	// Crash: crash before DB write event #Crash of this commit (-1 / absent = none); set by crash enumeration
 	Crash *int `json:"crash,omitempty"`
+	// IOErr: the fault at event #Crash is an I/O error (the write panics, the device goes on working while the
+	// panic unwinds), not the death of the process
+	IOErr bool `json:"io_err,omitempty"`
 }
 
 type Trace struct {
@@ -58,6 +61,8 @@ type Trace struct {
 	Lazy     bool       `json:"lazy,omitempty"`
 	// EnumCrash: execute once per (commit, DB write event) with the crash there (C13)
 	EnumCrash bool   `json:"enum_crash,omitempty"`
+	// EnumIOErr: enumerate every write event a second time as an I/O error
+	EnumIOErr bool `json:"enum_io_err,omitempty"`
 	Steps     []Step `json:"steps"`
 }
 
@@ -444,7 +449,11 @@ func (e *exec) commit(s *Step) {
 	start := e.db.Seq()
 	e.db.ResetLog()
 	if s.Crash != nil && *s.Crash >= 0 {
-		e.db.CrashBefore(start + int64(*s.Crash))
+		if s.IOErr {
+			e.db.FailWrite(start + int64(*s.Crash))
+		} else {
+			e.db.CrashBefore(start + int64(*s.Crash))
+		}
 	}
 	var id stypes.CommitID
 	var pan interface{}
@@ -460,7 +469,11 @@ func (e *exec) commit(s *Step) {
 			e.dead = true
 			return
 		}
-		st.Fault("crash_in_commit:" + labelClass(c.Label))
+		if c.IOError {
+			st.Fault("io_error_in_commit:" + labelClass(c.Label))
+		} else {
+			st.Fault("crash_in_commit:" + labelClass(c.Label))
+		}
 		st.C("crash_points_fired", 1)
 		e.afterCrash(newV, snap, c, lastClass(e.db.Log()))
 		return
@@ -531,6 +544,9 @@ func lastClass(log []string) string {
 // afterCrash: the process died before write event c.Event of the Commit of newV.
 func (e *exec) afterCrash(newV int64, snap []content, c simdb.Crash, prevLabel string) {
 	attrs := map[string]string{"crash_before": labelClass(c.Label), "crash_after": prevLabel, "height1": fmt.Sprint(newV == 1)}
+	if c.IOError {
+		attrs["fault"] = "io_error"
+	}
 	e.crashed = true
 	e.db.Revive()
 	rs, err := e.open(e.db)
